@@ -93,25 +93,30 @@ def isHMS : Str → Bool
       decide (two h1 h2 ≤ 23) && decide (two m1 m2 ≤ 59) && decide (two s1 s2 ≤ 60)
   | _ => false
 
+/-- .sss -/
+def isMillis : Str → Bool
+  | [46, f1, f2, f3] => digit f1 && digit f2 && digit f3
+  | _ => false
+
 /-- HH:MM:SS or HH:MM:SS.sss -/
-def isTimeOnly (s : Str) : Bool :=
-  isHMS s ||
-    (isHMS (s.take 8) && match s.drop 8 with
-      | [46, f1, f2, f3] => digit f1 && digit f2 && digit f3
-      | _ => false)
+def isTimeOnly (s : Str) : Bool := isHMS s || (isHMS (s.take 8) && isMillis (s.drop 8))
+
+/-- -HH:MM:SS[.sss] -/
+def isDashTime : Str → Bool
+  | 45 :: r => isTimeOnly r
+  | _ => false
 
 /-- YYYYMMDD-HH:MM:SS[.sss] -/
-def isTimestamp (s : Str) : Bool :=
-  isDate (s.take 8) && (match s.drop 8 with
-    | 45 :: r => isTimeOnly r
-    | _ => false)
+def isTimestamp (s : Str) : Bool := isDate (s.take 8) && isDashTime (s.drop 8)
+
+/-- wN, N = 1..5 -/
+def isWeekCode : Str → Bool
+  | [119, n] => decide (49 ≤ n) && decide (n ≤ 53)
+  | _ => false
 
 /-- YYYYMM | YYYYMMDD | YYYYMMwN -/
 def isMonthYear (s : Str) : Bool :=
-  isYearMonth s || isDate s ||
-    (isYearMonth (s.take 6) && match s.drop 6 with
-      | [119, n] => decide (49 ≤ n) && decide (n ≤ 53)
-      | _ => false)
+  isYearMonth s || isDate s || (isYearMonth (s.take 6) && isWeekCode (s.drop 6))
 
 /-- the datatypes of the table, grouped as validate_value groups them -/
 inductive DType
